@@ -501,7 +501,10 @@ fn report(ctx: &Ctx, art: &Art, v: &Violation) -> bool {
         return false;
     }
     println!("[sim] {}: {}", min_v.invariant, min_v.detail);
-    println!("VIOLATION property={} replay={}", min_v.property, path.display());
+    if min_v.property != ctx.property {
+        println!("[sim] (the violated clause is keyed {} in the oracle; it was found by, and is reported under, the {} check)", min_v.property, ctx.property);
+    }
+    println!("VIOLATION property={} replay={}", ctx.property, path.display());
     true
 }
 
